@@ -131,6 +131,22 @@ struct ApplyMagnitudeImpl<Mag, ApplyAs::INTEGER_MULTIPLY, T, is_T_integral> {
     static constexpr bool would_truncate(const T &) { return false; }
 };
 
+// Helper to divide by an integer `1 / Mag`, which `T` may or may not be able to hold.
+template <typename Mag, typename T, bool CanTHoldDivisor>
+struct DivideByInverseOf {
+    // Default case: `CanTHoldDivisor` is true (or else, dividing in `T` is the only option we have).
+    static constexpr T apply(const T &x) { return x / get_value<RealPart<T>>(MagInverseT<Mag>{}); }
+};
+template <typename Mag, typename T>
+struct DivideByInverseOf<Mag, T, false> {
+    // A floating point `T` may be unable to hold the divisor (say, `2^140` for `float`), even though
+    // the quotient itself is perfectly representable.  Divide in the widest floating point type.
+    static constexpr T apply(const T &x) {
+        return static_cast<T>(static_cast<long double>(x) /
+                              get_value<long double>(MagInverseT<Mag>{}));
+    }
+};
+
 // Dividing by an integer, for any type T.
 template <typename Mag, typename T, bool is_T_integral>
 struct ApplyMagnitudeImpl<Mag, ApplyAs::INTEGER_DIVIDE, T, is_T_integral> {
@@ -139,7 +155,12 @@ struct ApplyMagnitudeImpl<Mag, ApplyAs::INTEGER_DIVIDE, T, is_T_integral> {
     static_assert(is_T_integral == std::is_integral<T>::value,
                   "Mismatched instantiation (should never be done manually)");
 
-    constexpr T operator()(const T &x) { return x / get_value<RealPart<T>>(MagInverseT<Mag>{}); }
+    constexpr T operator()(const T &x) {
+        return DivideByInverseOf<Mag,
+                                 T,
+                                 (!std::is_floating_point<T>::value ||
+                                  representable_in<T>(MagInverseT<Mag>{}))>::apply(x);
+    }
 
     static constexpr bool would_overflow(const T &) { return false; }
 
